@@ -111,6 +111,11 @@ def long_case(draw):
     """Hundreds of key lifetimes on ONE re-used slot, a branch that speaks in the first lifetime(s) and then stays silent for
     hundreds of them (per-slot join state must not come back after 255 / 256 / 512 ... resets)."""
     w = draw(st.sampled_from([1, 2]))
+    if draw(st.integers(0, 4)) == 0:
+        # ONE key of several hundred items: a streaming branch runs hundreds of items ahead of a reducing one
+        items = [((j * 5) % 9) - 3 for j in range(draw(st.sampled_from([257, 300, 520])))]
+        return {'tin': 'int', 'branches': [[], [['scan_sum', True]]] if draw(st.booleans()) else [[['scan_sum', True]], [], [['count', True]]],
+                'join': draw(st.sampled_from(['zip', 'combine_latest'])), 'layers': [['group_by', 2]] if draw(st.booleans()) else [], 'items': items}
     if draw(st.integers(0, 3)) == 0:
         # a wide sliding window under two interleaved groups: the first key index a tee inside it sees is far from 0
         items = [((j * 3) % 7) - 2 for j in range(draw(st.sampled_from([60, 90])))]
@@ -168,7 +173,7 @@ def plain_case(draw):
     branches = [draw(gen.chain(tin, PLAINB, PLAINB.max_depth)) for _ in range(nb)]
     join = draw(st.sampled_from(['merge', 'zip', 'combine_latest']))
     items = draw(gen.int_items(12))
-    return {'tin': tin, 'branches': branches, 'join': join, 'items': items, 'again': draw(st.booleans())}
+    return {'tin': tin, 'branches': branches, 'join': join, 'items': items, 'again': draw(st.booleans()), 'sync_src': draw(st.booleans())}
 
 
 def check_plain(case):
@@ -196,6 +201,13 @@ def check_plain(case):
     H.require_clean(s.res, 'plain tee_map', **ctx)
     if not cmp.same_seq(s.res.items, exp, approx=False):
         raise Violation('plain tee_map output differs from the join of its branches run alone', expected=exp, got=s.res.items, **ctx)
+    if case.get('sync_src'):
+        # a plain source that delivers everything synchronously while it is being subscribed (inline rx.create)
+        r3 = drive.plain(items, [A.KINDS['tee'].build(tee_node, A.Env())], src='create')
+        H.require_clean(r3, 'plain tee_map on a source that emits inside subscribe()', **ctx)
+        if not cmp.same_seq(r3.items, exp, approx=False):
+            raise Violation('plain tee_map on a source that emits inside subscribe() differs from the join of its branches run alone',
+                            expected=exp, got=r3.items, **ctx)
     if case.get('again'):
         # the same operator OBJECT applied to a second source, after the first run is over (a new observable is built:
         # this is not a re-subscription)
